@@ -13,6 +13,10 @@
 (*   "ietwin"  root{ f1: X, f2: Y } and root{ f1: array[X, Y] }: X, Y script     *)
 (*             calls (one of them throwing) that differ at most in             *)
 (*             ignore_error - equal text otherwise                             *)
+(*   "sig"     root{ f1: sig[a1, a2, a3, a4] }: a call of a user function with  *)
+(*             the signature (string, int64, float64, bool); every argument    *)
+(*             a field or constant of its parameter's type that is present,    *)
+(*             absent or empty - absent ones arrive as their own zero value    *)
 (*   "dyn"     root{ f1: dynfield[C], f2: X } and root{ f1: array[dynfield[C]], *)
 (*             f2: X }: computed xpaths whose computation succeeds, is empty   *)
 (*             or fails, next to a declaration with the same text             *)
@@ -70,6 +74,9 @@ Trees ==
          { MkIE(3, <<0, 1, 1>>, <<V("object", 0, "none", FALSE, FALSE, ""), x, y>>, <<FALSE, a, b>>) : x \in TwinV, y \in TwinV, a \in BOOLEAN, b \in BOOLEAN }
          \cup { MkIE(4, <<0, 1, 2, 2>>, <<V("object", 0, "none", FALSE, FALSE, ""), V("array", 0, "none", FALSE, FALSE, ""), x, y>>, <<FALSE, FALSE, a, b>>) :
                    x \in TwinV, y \in TwinV, a \in BOOLEAN, b \in BOOLEAN }
+    [] Family = "sig" ->
+         { Mk(6, <<0, 1, 2, 2, 2, 2>>, <<V("object", 0, "none", FALSE, FALSE, ""), V("sig", 0, "none", FALSE, FALSE, "")>> \o a) :
+             a \in {x \in [1..4 -> {y \in TypedV : y.kind \in {"field", "const"} /\ ~y.notrim}] : \A k \in 1..4 : x[k].ty = SigTy[k]} }
     [] Family = "cast" ->
          { Mk(3, <<0, 1, 1>>, <<V("object", 0, "none", FALSE, FALSE, ""), x, y>>) : x \in TypedV, y \in JsV }
          \cup { Mk(3, <<0, 1, 2>>, <<V("object", 0, "none", FALSE, FALSE, ""), V("array", 0, "none", FALSE, FALSE, ""), x>>) : x \in TypedV }
